@@ -167,6 +167,35 @@ def dedicated_case(rng):
             'expected_bonds': expected, 'edges': [[e, (e + 1) % n, o] for e, o in enumerate(orders)]}
 
 
+def scarce_case(rng):
+    """a star / chain of all-atom units in which some unit has FEWER descriptors than coarse neighbours — among them
+    units that are a single explicit hydrogen carrying one descriptor ('[$][H]', '[>]H' is not SMILES): whatever is
+    matched, no written descriptor may serve two bonds"""
+    n = rng.randint(3, 5)
+    legacy = rng.random() < 0.6
+    star = rng.random() < 0.5
+    edges = [(0, i) for i in range(1, n)] if star else [(i, i + 1) for i in range(n - 1)]
+    centre = 0 if star else rng.randrange(1, n - 1)
+    deg = {i: sum(1 for e in edges if i in e) for i in range(n)}
+    frags = []
+    for i in range(n):
+        if i == centre:
+            kind = rng.choice(['H', 'H', 'C1'])
+            if kind == 'H':
+                text = rng.choice(['[$][H]', '[H][$]'])
+            else:
+                text = 'C[$]'                      # one descriptor, several neighbours
+        else:
+            text = rng.choice(['[$]C', 'C[$]', '[$]CC', 'N[$]', '[$]O']) if deg[i] == 1 or rng.random() < 0.5 else 'C([$])[$]'
+        frags.append('#U%d=%s' % (i, text))
+    if star:
+        base = '[#U0]' + ''.join('([#U%d])' % i for i in range(1, n - 1)) + '[#U%d]' % (n - 1)
+    else:
+        base = ''.join('[#U%d]' % i for i in range(n))
+    return {'kind': 'scarce', 's': '{' + base + '}.{' + ','.join(frags) + '}', 'all_atom': True, 'legacy': legacy,
+            'centre': centre}
+
+
 def dedicated_oracle(ctx, case, steps, ctor_err):
     oracle(ctx, case, steps, ctor_err)
     if steps is None:
@@ -254,6 +283,9 @@ def run(ctx):
             case['unique_labels'] = lp == 1.0
         elif i % 6 == 1:
             case = dedicated_case(rng)
+        elif i % 6 == 2:
+            case = scarce_case(rng)
+            ctx.feature('scarce-descriptors')
         else:
             case = gen_mol.ambiguous_case(rng)
         suites.run_resolve_case(ctx, 'resolve', case, oracle=dedicated_oracle if case.get('kind') == 'dedicated' else
